@@ -24,13 +24,13 @@ var scalarLhs = map[string][]lhsCand{
 
 var setLhs = map[string][]lhsCand{
 	Things: {{"tags", TStr, true}, {"nums", TStr, true}, {"friends", TStr, true}, {"friends.name", TStr, true}, {"friends.rank", TInt, true}, {"friends.tags", TStr, true}, {"owner.tags", TStr, true}, {"friends.id", TStr, true},
-		{"owner.things", TStr, true}, {"owner.things.s", TStr, true}, {"friends.things.ibig", TInt, true}, {"friends.things.owner.name", TStr, true}, {"friends.alias", TStr, true}},
+		{"owner.things", TStr, true}, {"owner.things.s", TStr, true}, {"friends.things.ibig", TInt, true}, {"friends.things.owner.name", TStr, true}, {"friends.alias", TStr, true}, {"peers", TStr, true}, {"peers.s", TStr, true}, {"peerof.ibig", TInt, true}, {"peers.peers", TStr, true}},
 	Owners: {{"tags", TStr, true}, {"things", TStr, true}, {"things.s", TStr, true}, {"things.ibig", TInt, true}, {"things.tags", TStr, true}, {"things.friends.name", TStr, true}, {"things.owner.name", TStr, true},
 		{"things.friends", TStr, true}, {"things.owner", TStr, true}, {"things.friends.alias", TStr, true}},
 	Others: {{"tags", TStr, true}, {"things", TStr, true}, {"things.flt", TFloat, true}, {"things.owner.name", TStr, true}, {"things.owner.age", TInt, true}, {"things.nums", TStr, true}, {"things.friends.rank", TInt, true}},
 }
 
-var subSets = map[string][]string{Things: {"friends"}, Owners: {"things", "favlist"}, Others: {"things"}}
+var subSets = map[string][]string{Things: {"friends", "peers"}, Owners: {"things", "favlist"}, Others: {"things"}}
 
 type Gen struct {
 	R     *core.Rand
